@@ -903,7 +903,8 @@ def direct_setters(ctx):
                 if a in bc:
                     continue
                 bc[a] = c
-                add("boundary", "set_boundary_conditions(%r)" % bc, {"op": "validate", "kind": "boundary", "bc": [[k, v] for k, v in bc.items()]},
+                add("boundary", "set_boundary_conditions(%r)" % bc, {"op": "validate", "kind": "boundary", "bc": [[k, v] for k, v in bc.items()],
+                                                                          "cur": [[ax, "periodical"] for ax in AXES]},
                     invalid=(a not in AXES or c not in BOUNDARY))
     for p in POLICIES + ["on_sample", "", "On_iteration", "no sampling", "on_t_sample "]:
         add("policy", "RDScript(sampling_policy=%r)" % p, {"op": "validate", "kind": "policy", "v": p}, invalid=p not in POLICIES)
